@@ -208,6 +208,8 @@ class State:
         return parse_type(ft)
 
     def _wf_ref(self, v):
+        if v.t[0] == "enum" and v.z is not None:
+            self.assume(z3.And(v.z >= 0, v.z < len(ENUMS[v.t[1]])))
         if is_ref(v.t) and v.z is not None:
             f = z3.And(v.z >= 0, v.z < self.alloc)
             self.assume(z3.Implies(z3.Not(v.none), f) if v.none is not None else f)
@@ -267,25 +269,19 @@ class State:
             z = z3.If(z, 1, 0)
         if self.ctx.float_mode == "fp":
             return V(("float",), z3.fpToFP(z3.RNE(), z3.ToReal(z), z3.Float64()))
-        return V(("float",), z3.ToReal(z))
+        return V(("float",), z3.simplify(z3.ToReal(z)))
 
     # ---- allocation -------------------------------------------------------------------------------------
     def new_ref(self, base="obj"):
-        q = self.qmode
-        if q is not None:
-            r = self.ctx.fresh_z("new_" + base, z3.IntSort())
-            q["new"].add(_key(r))
-            q["newrefs"].append(r)
-            self.assume(z3.And(r >= q["alloc0"], r < q["alloc1"]))
-            return r
-        r = self.alloc
-        self.alloc = self.alloc + 1
+        r = z3.simplify(self.alloc)
+        self.alloc = r + 1
+        if self.qmode is not None:
+            self.qmode["new"].add(_key(r))
+            self.qmode["newrefs"].append(r)
         return r
 
     def havoc_alloc(self):
         """A callee may allocate any number of objects."""
-        if self.qmode is not None:
-            return
         a = self.ctx.fresh_z("alloc", z3.IntSort())
         self.assume(a >= self.alloc)
         self.alloc = a
